@@ -378,6 +378,32 @@ theorem gen_emit_index_fields :
       [(Gen.TagAuthorizerBurn, "Burner"), (Gen.TagAddBurnTicket, "EthereumAddress"), (Gen.TagAddBridgeMint, "UserID")] := by
   decide
 
+/-! ### the commit path -/
+
+/-- every link whose error must reach `ProcessEvents`' commit-or-rollback decision -/
+def requiredFlows : List (String × String) := [
+  ("addStat/TagAddBurnTicket", "addBurnTicket"), ("addStat/TagAuthorizerBurn", "updateAuthorizersTotalBurn"),
+  ("addStat/TagAddBridgeMint", "updateUserMintNonce"), ("addStat/TagAddBridgeMint", "updateAuthorizersTotalMint"),
+  ("processEvent/TypeStats", "addStat"), ("WorkEvents", "processEvent"), ("WorkEvents", "addEvents"),
+  ("Work", "WorkEvents"), ("addEventsWorker", "Work"), ("ProcessEvents", "commit")]
+
+/-- **stats_error_propagates** (re-proved on every regeneration): the error of every bridge handler, of `addStat` in
+`processEvent`, of `processEvent`/`addEvents` in `WorkEvents`, of `WorkEvents` in `Work`, of `Work` in the worker and the
+worker's verdict in `ProcessEvents` all reach the caller's error result — none is assigned to a shadowing variable or
+dropped — so a handler failure makes the block's event processing fail and the transaction is rolled back, not
+committed (finalization retries). Turning `err = edb.addStat(event)` into `if err := edb.addStat(event); …` makes the
+extracted flow `.swallowed` and this theorem false. -/
+theorem stats_error_propagates :
+    errorsPropagate Gen.errorFlow = true ∧
+    requiredFlows.all (fun r => Gen.errorFlow.any (fun e => e.1 == r.1 && e.2.1 == r.2)) = true := by
+  decide
+
+/-- what `errorsPropagate` means for one block: if some handler fails, the block commits iff some link swallows. -/
+theorem commit_iff_swallowed (flows : List (String × String × ErrFlow)) :
+    errorsPropagate flows = false ↔ ∃ f ∈ flows, f.2.2 ≠ .propagated := by
+  unfold errorsPropagate
+  simp [List.all_eq_false]
+
 /-! ### the source as found: the full-strength statement is false
 
 These are statements about the CURRENT `Generated/C20.lean`; after a repair of the source they are meant to stop
